@@ -901,9 +901,11 @@ PROPS = {
                 level_text="Write Request to a bound value stores exactly the written bytes at offset 0 and changes nothing else, a rejected write changes nothing, Read / Read Blob return the value from the offset truncated to MTU-1 or Invalid Offset past the end. Declared properties vs permissions for every value kind (bound, fixed, cstring/blob, handler): no Write property => every write refused and nothing changes (full strength); no Read property => no read succeeds, except exactly handler values with a read handler and no_read_access; a declared Read / Write property is never answered Read / Write Not Permitted by the library. Handler values under the documented contract (out_size <= read_size): a read/write is exactly the handler's answer (plain handlers: offset 0 only, else Attribute Not Long), write-only / read-only handler characteristics refuse the other direction. The no_read_access option is enforced for bound, fixed and handler-without-read-handler values.",
                 level_note="Excluded inputs = exactly the two known findings: no_read_access is ignored by value_handler_base (handler values with a read handler: declaration lacks Read but reads succeed) and by cstring_wrapper (cstring / fixed blob values: declared readable and readable); witness theorems for both, and theorems that every excluded input does violate the full statement (the exclusion is not larger than the finding)."),
     "C05": dict(COMMON,
-                theorems=[T + "protected_read_rejected", T + "protected_write_rejected", T + "protected_request_rejected", T + "protected_not_notified", T + "protected_not_read_by_type", T + "requiresEnc_table"],
+                theorems=[T + "protected_read_rejected", T + "protected_write_rejected", T + "protected_request_rejected", T + "protected_not_notified", T + "protected_not_read_by_type", T + "requiresEnc_table",
+                          T + "step_noninterference", T + "dispatch_noninterference", T + "notify_noninterference", T + "handleReadMultiple_ni", T + "handleReadByType_ni",
+                          T + "sameUnprotected_of_agree", T + "niSrv_agree"],
                 witnesses=[],
-                run=run_c05, design_ref="§5 C05", imports=["BluetoeModel.AttAccess.ValueProps"],
-                level_text="If the three-level option inheritance says a characteristic requires encryption and the link is not encrypted, every access to its value or CCCD is rejected with 0x05 (no key) / 0x0F before any byte is read or written; Read, Read Blob, Write, Write Command answer with that error, Read By Type skips the attribute, Read Multiple fails, notifications/indications are not sent.",
-                level_note="Prepare/Execute Write belong to attwq (C07)"),
+                run=run_c05, design_ref="§5 C05", imports=["BluetoeModel.AttAccess.ValueProps", "BluetoeModel.AttAccess.NonInterference"],
+                level_text="If the three-level option inheritance says a characteristic requires encryption and the link is not encrypted, every access to its value or CCCD is rejected with 0x05 (no key) / 0x0F before any byte is read or written; Read, Read Blob, Write, Write Command answer with that error, Read By Type skips the attribute, Read Multiple fails, notifications/indications are not sent. Whole-PDU non-interference: on an unencrypted link the response to every request other than Write Request / Write Command (Read, Read Blob, Read Multiple, Read By Type, Find By Type Value, Find Information, Read By Group Type, Exchange MTU, Prepare/Execute without queue, unknown opcodes) and every notification / indication is identical for any two memories that agree on the cells of the unprotected values, i.e. independent of the content of protected memory (step_noninterference, notify_noninterference).",
+                level_note="Prepare/Execute Write with a write queue belong to attwq (C07) and are not part of this model; unprotected handler values are covered under the hypothesis that the user's handler answers the same for both memories (the library cannot confine user code)."),
 }
